@@ -394,6 +394,8 @@ def thread_worker(task):
     C.rec["states"] = stats["executions"]
     C.rec["extra"]["schedules"] = stats["executions"]
     C.rec["extra"]["max_points"] = stats["max_points"]
+    C.rec["extra"]["schedules_with_lock_contention"] = stats["contended"]
+    C.rec["extra"]["schedules_truly_interleaved"] = stats["interleaved"]
     C.rec["extra"]["thread_outcomes"] = outcomes
     if stats["capped"]:
         C.rec["exhaustive"] = False
